@@ -60,6 +60,7 @@ func acquireDirectoryLock(dirPath string, pidFileName string, readOnly bool) (
 	if !readOnly {
 		// Yes, we happily overwrite a pre-existing pid file.  We're the
 		// only read-write badger process using this directory.
+		y.VerifIO("write", absPidFilePath)
 		err = os.WriteFile(absPidFilePath, []byte(fmt.Sprintf("%d\n", os.Getpid())), 0666)
 		if err != nil {
 			f.Close()
@@ -75,6 +76,7 @@ func (guard *directoryLockGuard) release() error {
 	var err error
 	if !guard.readOnly {
 		// It's important that we remove the pid file first.
+		y.VerifIO("unlink", guard.path)
 		err = os.Remove(guard.path)
 	}
 
@@ -99,6 +101,7 @@ func syncDir(dir string) error {
 		return y.Wrapf(err, "While opening directory: %s.", dir)
 	}
 
+	y.VerifIO("dirsync", dir)
 	err = f.Sync()
 	closeErr := f.Close()
 	if err != nil {
